@@ -7,12 +7,14 @@
          mut_header   = ID3Header.__init__ as far as ID3.save uses it (ID3NoHeaderError -> no header,
                         every other failure propagates; extended-header handling incl. the "frame id instead
                         of an extended header" heuristic, the Frames key set being a run-time parameter)
-         find_id3v1   = find_id3v1 + the length test of ParseID3v1 (window of the last 128+3 bytes, FIRST
-                        b"TAG", not the one inside b"APETAGEX", tag length 124..128)
+         find_id3v1   = find_id3v1(start) + the length test of ParseID3v1 (window of the last 128+3 bytes; no tag
+                        when the file ends with an APEv2 footer; FIRST b"TAG", not the one inside b"APETAGEX",
+                        not before file offset `start`, tag length 124..128)
          prepare_data = ID3._prepare_data (needed, PaddingInfo(available - needed, trailing_size), negative
-                        callback result -> error, BitPaddedInt.to_str(new_size - 10, width=4), zero fill)
+                        = the bytes behind the old tag), negative callback result -> error,
+                        BitPaddedInt.to_str(new_size - 10, width=4), zero fill)
          id3f_save    = ID3.save (old size from the header, insert_bytes / delete_bytes + write at 0 = splice at
-                        offset 0, then __save_v1),   id3f_delete = module-level delete(f, True, True)
+                        offset 0, then __save_v1(f, v1, new_size)),   id3f_delete = module-level delete(f, True, True)
      - STRICT, independent readers written from the format layout: parse_tag / walk_frames (frame-header
        walker: 4-char id [A-Z0-9], syncsafe (v2.4) or plain (v2.3) size, 2 flag bytes; 3+3 bytes for v2.2),
        strict_v1, id3f_parse, id3f_load, id3f_wf.
@@ -35,18 +37,24 @@ Fixpoint index_of (pat l : list Z) : option Z :=
               else match index_of pat r with Some i => Some (i + 1) | None => None end
   end.
 
-(* find_id3v1 on the bytes read from the window; result: length of the tag (= -offset), None = (None, 0) *)
-Definition find_v1_in (data : list Z) : option Z :=
+(* find_id3v1(fileobj, start=start) on the bytes `data` read from the window that begins at file offset data_offset;
+   result: length of the tag (= -offset), None = (None, 0) *)
+Definition find_v1_in (data_offset start : Z) (data : list Z) : option Z :=
+  (* data[-32:-24] == b"APETAGEX": the file ends with an APEv2 footer *)
+  if (32 <=? zlen data) && starts_with M_APE (zdrop (zlen data - 32) data) then None else
   match index_of M_TAG data with
   | None => None
   | Some idx =>
     if (match index_of M_APE data with Some ape_idx => idx =? ape_idx + 3 | None => false end) then None
+    else if data_offset + idx <? start then None
     else
       let n := zlen data - idx in                 (* len(data[idx:]) *)
       if (128 <? n) || (n <? 124) then None else Some n
   end.
-(* fileobj.seek(-128 - 3, 2) (position 0 when the file is shorter); data = fileobj.read(131) *)
-Definition find_id3v1 (f : list Z) : option Z := find_v1_in (zdrop (zlen f - 131) f).
+(* fileobj.seek(-128 - 3, 2) (position 0 when the file is shorter); data = fileobj.read(131);
+   data_offset = fileobj.tell() - len(data) *)
+Definition find_id3v1 (start : Z) (f : list Z) : option Z :=
+  let data := zdrop (zlen f - 131) f in find_v1_in (zlen f - zlen data) start data.
 
 Definition in_frames (known : list (list Z)) (x : list Z) : bool := existsb (list_eqb x) known.
 
@@ -102,11 +110,13 @@ Record opts := mkIOpts {
 Definition render_tag (v2 : Z) (sizebytes framedata : list Z) (padding : Z) : list Z :=
   M_ID3 ++ [v2; 0; 0] ++ sizebytes ++ framedata ++ zeros padding.
 
-(* ID3._prepare_data(fileobj, 0, available, v2_version, v23_sep, pad_func); fsize = file size *)
+(* ID3._prepare_data(fileobj, 0, available, v2_version, v23_sep, pad_func); fsize = file size;
+   trailing_size = max(0, fsize - start - available): the data following the old tag *)
 Definition prepare_data (fsize available : Z) (framedata : list Z) (o : opts) : result (list Z) :=
   if negb ((o_v2 o =? 3) || (o_v2 o =? 4)) then Raise EValue else
   let needed := zlen framedata + 10 in
-  let new_padding := o_cb o (available - needed) fsize in
+  let trailing_size := Z.max 0 (fsize - 0 - available) in
+  let new_padding := o_cb o (available - needed) trailing_size in
   if new_padding <? 0 then Raise EMutagen else
   let new_size := needed + new_padding in
   match to_str (new_size - 10) 7 true 4 4 with
@@ -114,9 +124,9 @@ Definition prepare_data (fsize available : Z) (framedata : list Z) (o : opts) : 
   | Ok new_framesize => Ok (render_tag (o_v2 o) new_framesize framedata (new_size - needed))
   end.
 
-(* ID3.__save_v1 *)
-Definition save_v1 (f : list Z) (v1 : Z) (v1bytes : list Z) : list Z :=
-  match find_id3v1 f with
+(* ID3.__save_v1(f, v1, v2_size): an ID3v1 tag cannot begin inside the ID3v2 tag just written *)
+Definition save_v1 (f : list Z) (v1 : Z) (v1bytes : list Z) (v2_size : Z) : list Z :=
+  match find_id3v1 v2_size f with
   | Some n =>                                   (* f.seek(-n, 2) *)
     if (v1 =? 1) || (v1 =? 2) then patch f (zlen f - n) v1bytes else ztake (zlen f - n) f
   | None =>                                     (* f.seek(0, 2) *)
@@ -127,7 +137,7 @@ Definition old_size_of (h : option Z) : Z := match h with Some s => s | None => 
 
 (* the ID3v2 part of ID3.save: insert_bytes(f, new - old, old) / delete_bytes(f, old - new, new) (ValueError when
    the old tag claims more bytes than the file has), seek(0), write(data) *)
-Definition id3f_save_v2 (f framedata : list Z) (o : opts) : result (list Z) :=
+Definition id3f_save_v2 (f framedata : list Z) (o : opts) : result (list Z * Z) :=
   match mut_header (o_known o) f with
   | Raise e => Raise e
   | Ok h =>
@@ -136,28 +146,37 @@ Definition id3f_save_v2 (f framedata : list Z) (o : opts) : result (list Z) :=
     | Raise e => Raise e
     | Ok data =>
       if (zlen f <? old_size) && negb (old_size =? zlen data) then Raise EValue
-      else Ok (splice f 0 old_size data)
+      else Ok (splice f 0 old_size data, zlen data)
     end
   end.
 
 Definition id3f_save (f framedata : list Z) (o : opts) : result (list Z) :=
   match id3f_save_v2 f framedata o with
   | Raise e => Raise e
-  | Ok g => Ok (save_v1 g (o_v1 o) (o_v1bytes o))
+  | Ok (g, new_size) => Ok (save_v1 g (o_v1 o) (o_v1bytes o) new_size)
   end.
 
 (* module-level delete(filething, delete_v1=True, delete_v2=True) *)
 Definition id3f_delete (f : list Z) : result (list Z) :=
-  let f1 := match find_id3v1 f with Some n => ztake (zlen f - n) f | None => f end in
-  let idata := ztake 10 f1 in
-  if negb (zlen idata =? 10) then Ok f1 else           (* struct.error: pass *)
-  match bpi_of_bytes 7 true (zslice 6 10 idata) with
+  (* delete_v1: an ID3v1 tag can't lie inside an ID3v2 tag at the start of the file *)
+  let idata0 := ztake 10 f in
+  match (if (zlen idata0 =? 10) && starts_with M_ID3 idata0
+         then match bpi_of_bytes 7 true (zslice 6 10 idata0) with Ok v => Ok (v + 10) | Raise e => Raise e end
+         else Ok 0) with
   | Raise e => Raise e
-  | Ok insize =>
-    if starts_with M_ID3 idata && (0 <=? insize) then
-      if zlen f1 <? insize + 10 then Raise EValue       (* delete_bytes: movesize < 0 *)
-      else Ok (splice f1 0 (insize + 10) [])
-    else Ok f1
+  | Ok v2_end =>
+    let f1 := match find_id3v1 v2_end f with Some n => ztake (zlen f - n) f | None => f end in
+    (* delete_v2 *)
+    let idata := ztake 10 f1 in
+    if negb (zlen idata =? 10) then Ok f1 else           (* struct.error: pass *)
+    match bpi_of_bytes 7 true (zslice 6 10 idata) with
+    | Raise e => Raise e
+    | Ok insize =>
+      if starts_with M_ID3 idata && (0 <=? insize) then
+        if zlen f1 <? insize + 10 then Raise EMutagen     (* delete_bytes: ValueError -> error *)
+        else Ok (splice f1 0 (insize + 10) [])
+      else Ok f1
+    end
   end.
 
 (* ------------------------------------------------------------------ strict readers (format layout) *)
@@ -241,14 +260,15 @@ Definition v1_size (s : id3f) : Z := match i_v1 s with Some _ => 128 | None => 0
 
 Definition is_none {A} (x : option A) : bool := match x with None => true | Some _ => false end.
 Definition is_some128 (x : option Z) : bool := match x with Some n => n =? 128 | None => false end.
-(* the 128 bytes v are recognised as THE ID3v1 tag behind the payload mid, by the format rule and by mutagen *)
+(* the 128 bytes v are recognised as THE ID3v1 tag behind the payload mid, by the format rule and by mutagen; the
+   payload has at least 3 bytes, so that the 128+3 byte search window does not reach the ID3v2 tag *)
 Definition v1_fits (mid v : list Z) : bool :=
-  (zlen v =? 128) && strict_v1 (mid ++ v) && is_some128 (find_id3v1 (mid ++ v)).
-(* the payload between the two tags is unambiguous: at least 131 bytes (the ID3v1 search window never reaches the
-   ID3v2 tag), does not itself start with an ID3v2 header or end in something taken for an ID3v1 tag *)
+  (3 <=? zlen mid) && (zlen v =? 128) && strict_v1 (mid ++ v) && is_some128 (find_id3v1 0 (mid ++ v)).
+(* the payload between the two tags is unambiguous: it does not itself start with an ID3v2 header or end in
+   something taken for an ID3v1 tag (by the format rule or by mutagen: legacy short tags) *)
 Definition payload_ok (s : id3f) : bool :=
-  (131 <=? zlen (i_mid s)) && negb (starts_with M_ID3 (i_mid s)) && negb (strict_v1 (i_mid s))
-  && is_none (find_id3v1 (i_mid s))
+  negb (starts_with M_ID3 (i_mid s)) && negb (strict_v1 (i_mid s))
+  && is_none (find_id3v1 0 (i_mid s))
   && match i_v1 s with Some v => v1_fits (i_mid s) v | None => true end.
 Definition id3f_wf (f : list Z) : bool :=
   match id3f_parse f with Ok s => payload_ok s | Raise _ => false end.
